@@ -37,7 +37,7 @@ int main(int argc, char **argv)
     std::cout << "--- analyser issues\n" << vp::dumpIssues(analyser);
     std::cout << "--- analyser model type " << libcellml::AnalyserModel::typeAsString(analyser->model()->type()) << "\n";
     auto gen = libcellml::Generator::create();
-    gen->setModel(analyser->model());
+    gen->setModel(analyser->model()); if (getenv("VP_PY")) gen->setProfile(libcellml::GeneratorProfile::create(libcellml::GeneratorProfile::Profile::PYTHON));
     std::cout << "--- code bytes " << gen->implementationCode().size() << "\n";
     if (argc > 3 && std::string(argv[3]) == "code") {
         std::cout << gen->interfaceCode() << "\n=====\n" << gen->implementationCode();
